@@ -90,6 +90,14 @@ func genBody(t *simrt.Tape) []byte {
 
 var keyDirs = map[string]string{}
 
+// CleanupKeys removes the scratch key directories.
+func CleanupKeys() {
+	for k, d := range keyDirs {
+		os.RemoveAll(d)
+		delete(keyDirs, k)
+	}
+}
+
 // signer builds the real modifier; keys are generated once per process in a
 // scratch directory on the real file system (modify.dkim loads keys with os).
 func newSigner(algo, hc, bc string, domains []string) (*dkim.Modifier, map[string]string, error) {
